@@ -144,3 +144,9 @@ META = dict(
     explanation='Server.run interpreted from source with its real with/try structure and the real JsonLogWriter',
     required_outcomes=['aborted in the auction', 'aborted in the play', 'completed'],
 )
+
+
+def validate(tier):
+    """translator validation: the interpreter in concrete mode against CPython on the functions this check encodes"""
+    from engine import validate as v
+    return v.run(['converters'], tier)
